@@ -152,12 +152,53 @@ class Gen:
         a, b = self.i64(), self.i64()
         return (min(a, b), max(a, b))
 
+    # maxima that decide the value of a prototype element without minimum (record.rs: `max < 0.0`):
+    # negative, positive, -0.0, +0.0, NaN of both signs, -inf, the negative numbers next to -0.0 and to -inf/NaN
+    ONLY_MAX64 = [0xbff0000000000000, 0x3ff0000000000000, 0x8000000000000000, 0x0, 0x7ff8000000000000, 0xfff8000000000000, 0xfff0000000000000,
+                  0x8000000000000001, 0xffefffffffffffff, 0xfff0000000000001, 0xc05edd3c07ee0b0b, 0x7ff0000000000000]
+    ONLY_MAX32 = [0xbf800000, 0x3f800000, 0x80000000, 0x0, 0x7fc00000, 0xffc00000, 0xff800000, 0x80000001, 0xff7fffff, 0xff800001, 0xc2f6e9e0, 0x7f800000]
+
+    @staticmethod
+    def fval(tok):
+        """the float a bit-pattern token denotes (8 hex digits: f32, 16: f64)"""
+        return struct.unpack("<f", struct.pack("<I", int(tok, 16)))[0] if len(tok) == 8 else struct.unpack("<d", struct.pack("<Q", int(tok, 16)))[0]
+
+    def float_limits(self, draw, only_max):
+        """(min, max) tokens: all four presence patterns; a lone maximum is mostly taken from the list of decisive
+        values.  The writer rejects NaN limits and minimum > maximum (eaf8fc6): most draws respect that, one in
+        twelve does not (the rejected call is dropped from the model's program)."""
+        strict = not self.rng.chance(1, 12)
+        def num():
+            for _ in range(50):
+                t = draw()
+                if not strict or self.fval(t) == self.fval(t):
+                    return t
+            return "%0*x" % (16 if only_max is self.ONLY_MAX64 else 8, 0)
+        c = self.rng.below(5)
+        if c == 0:
+            return "-", "-"
+        if c == 1:
+            return num(), "-"                      # only a minimum
+        if c == 2:
+            a, b = num(), num()
+            if strict and self.fval(a) > self.fval(b):
+                a, b = b, a
+            return a, b
+        if self.rng.chance(3, 4):                   # only a maximum (two of five draws)
+            b = self.rng.choice(only_max)
+            fmt = "%016x" if only_max is self.ONLY_MAX64 else "%08x"
+            if not strict or self.fval(fmt % b) == self.fval(fmt % b):
+                (self.used_f64 if only_max is self.ONLY_MAX64 else self.used_f32).add(b)
+                self.note("only-max:" + fmt % b)
+                return "-", fmt % b
+        return "-", num()
+
     def dtype(self, allowed="FDSI"):
         k = self.rng.choice(allowed)
         if k == "F":
-            return "F/%s/%s" % (self.f32() if self.rng.chance(1, 2) else "-", self.f32() if self.rng.chance(1, 2) else "-")
+            return "F/%s/%s" % self.float_limits(self.f32, self.ONLY_MAX32)
         if k == "D":
-            return "D/%s/%s" % (self.f64() if self.rng.chance(1, 2) else "-", self.f64() if self.rng.chance(1, 2) else "-")
+            return "D/%s/%s" % self.float_limits(self.f64, self.ONLY_MAX64)
         mn, mx = self.int_range()
         if k == "S":
             return "S/%d/%d/%s/%s" % (mn, mx, self.f64(), self.f64())
@@ -630,6 +671,11 @@ def probes():
     P.append(("integer-minimum-above-maximum", prog("G " + S("g"), "PC %s 4 %s row~I/5/0" % (S("p"), " ".join(base_pc)), "PE", "FIN")))
     P.append(("scaled-integer-minimum-above-maximum", prog("G " + S("g"), "PC %s 4 %s in~S/5/0/3ff0000000000000/0000000000000000" % (S("p"), " ".join(base_pc)), "PE", "FIN")))
     P.append(("float-minimum-above-maximum", prog("G " + S("g"), "PC %s 3 x~D/4000000000000000/3ff0000000000000 y~D/-/- z~D/-/-" % S("p"), "PE", "FIN")))
+    P.append(("float-records-with-only-a-maximum-or-only-a-minimum", prog("G " + S("g"), "X %s %s" % (S("ext"), S("http://e")),
+              "PC %s 12 x~D/-/bff0000000000000 y~D/-/3ff0000000000000 z~D/-/8000000000000000 sr~D/-/0000000000000000 sa~D/-/fff0000000000000 se~D/-/8000000000000001 "
+              "in~F/-/bf800000 r~F/-/80000000 g~F/-/ff7fffff b~F/-/ff800000 ts~D/c000000000000000/- u.%s.%s~F/40000000/-" % (S("p"), hexs("ext"), hexs("q")),
+              "PE", "FIN")))
+    P.append(("float-record-with-nan-maximum", prog("G " + S("g"), "PC %s 3 x~D/-/fff8000000000000 y~F/-/7fc00000 z~D/-/-" % S("p"), "PE", "FIN")))
     P.append(("duplicate-record", prog("G " + S("g"), "PC %s 5 %s in~D/-/- in~F/-/-" % (S("p"), " ".join(base_pc)), "PE", "FIN")))
     P.append(("all-pointcloud-strings-empty", prog("G " + S("g"), "CM =", "PC = 3 " + " ".join(base_pc), "PN =", "PD =", "PSV =", "PSM =", "PSS =", "PSH =", "PSW =", "PSF =", "POG 2 = =", "PE", "FIN")))
     P.append(("image-all-strings-empty", prog("G " + S("g"), "IMG =", "IN =", "ID =", "IG =", "ISV =", "ISM =", "ISS =", "IVR p = = 0 0", "IE", "FIN")))
